@@ -54,9 +54,9 @@ Definition c10_verdict (c : c10_case) : verdict :=
        list_eqb bl_obs_eqb (lspec_run [] ops) o,
        false)
   (* too big to run the model (unary tokens, quadratic): both bits are decided by
-     the Spec-level checker big_ok; by C10_heap_refines / C10_sorted_refines the
-     model returns what spec_run returns on every history, so no separate model
-     run is attempted here *)
+     the Spec-level checker big_ok: by C10_big_ok_sound an accepted observation is
+     exactly spec_run's, and by C10_heap_refines / C10_sorted_refines the model
+     returns what spec_run returns on every history *)
   | BigDiff p oh os => let ok := big_ok p oh && big_ok p os in (ok, ok, false)
   | BigSame p o => let ok := big_ok p o in (ok, ok, false)
   end.
